@@ -79,8 +79,27 @@ func TestSequential(t *testing.T) {
 		last := int64(0) // latest assigned pass time
 		sawWait, sawReject, passAfterReject := false, false, false
 		n := rapid.IntRange(1, 30).Draw(t, "n")
-		reloads := 0
+		reloads, requeued := 0, false
 		for i := 0; i < n; i++ {
+			if rapid.IntRange(0, 11).Draw(t, "requeue") == 5 {
+				// the rule is reloaded with ONLY its queueing limit changed: a changed rule gets a new controller, the new limit
+				// applies from now on and pacing starts afresh
+				q2 := rapid.SampledFrom(queues).Draw(t, "Q2")
+				if q2 != q {
+					q = q2
+					maxQ = int64(q) * 1e6
+					nr := *loaded
+					nr.MaxQueueingTimeMs = uint32(q)
+					cp := nr
+					loaded = &cp
+					if _, err := flow.LoadRules([]*flow.Rule{&nr}); err != nil || len(flow.GetRulesOfResource("t")) != 1 {
+						t.Fatalf("reload with another queueing limit: %v", err)
+					}
+					last = 0
+					c.Op("reload: max queueing time now %d ms", q)
+					requeued = true
+				}
+			}
 			if rapid.IntRange(0, 7).Draw(t, "reload") == 3 {
 				// the rule set is reloaded with the pacing rule unchanged (a fresh, equal object) and something else different:
 				// pacing state and queued reservations must survive
@@ -126,7 +145,11 @@ func TestSequential(t *testing.T) {
 			hx.C.AddNs(dt)
 			now := hx.C.Ns()
 			hx.C.TakeSlept()
-			e, blk := sentinel.Entry("t", sentinel.WithBatchCount(b))
+			var bo []sentinel.EntryOption
+			if !(b == 1 && rapid.Bool().Draw(t, "plainCall")) {
+				bo = append(bo, sentinel.WithBatchCount(b))
+			}
+			e, blk := sentinel.Entry("t", bo...)
 			slept := hx.C.TakeSlept()
 			var wait int64
 			for _, d := range slept {
@@ -179,6 +202,7 @@ func TestSequential(t *testing.T) {
 		c.ClassIf(sawWait, "wait>0")
 		c.ClassIf(sawReject, "reject")
 		c.ClassIf(reloads > 0, "reloaded-with-the-pacing-rule-unchanged")
+		c.ClassIf(requeued, "reloaded-with-another-queueing-limit")
 		if sawWait && sawReject && passAfterReject {
 			c.NonTrivial()
 		}
